@@ -224,7 +224,19 @@ func runCase(c Case) (stInside, stOutOfOrder bool, err error) {
 				}
 				kind := h.expected[len(h.results)].kind
 				h.mu.Unlock()
-				if kind == "connectRes" {
+				if kind == "error" {
+					// a response nobody waits for (duplicate / unsolicited): there is no type to wait for - whether a typed wait stops at it
+					// with an error or passes over it is not fixed by the statement - so it is read and decoded as a message
+					m, re := a.ReadMessage()
+					if re != nil {
+						h.mu.Lock()
+						h.readErr = re
+						h.cond.Broadcast()
+						h.mu.Unlock()
+						return
+					}
+					pkt, e = a.DecodeMessage(m)
+				} else if kind == "connectRes" {
 					var p *rtmp.ConnectAppResPacket
 					if _, e = a.ExpectPacket(&p); e == nil {
 						pkt = p
@@ -424,8 +436,10 @@ func runCase(c Case) (stInside, stOutOfOrder bool, err error) {
 		r := h.results[i]
 		switch e.kind {
 		case "error":
-			if len(r.typ) < 6 || r.typ[:6] != "error:" {
-				return stInside, stOutOfOrder, fmt.Errorf("response %d (tid %v) had no outstanding request, yet it was decoded as %s", i, e.tid, r.typ)
+			// "no response is matched twice": a response whose request is not outstanding (any more) must not come out as a matched,
+			// typed response. Whether it is an error (this library; C03 asks for that) or handed on unmatched is not C04's business.
+			if r.typ == "*rtmp.ConnectAppResPacket" || r.typ == "*rtmp.CreateStreamResPacket" {
+				return stInside, stOutOfOrder, fmt.Errorf("response %d (tid %v) had no outstanding request, yet it was matched and decoded as %s", i, e.tid, r.typ)
 			}
 		case "connectRes":
 			if r.typ != "*rtmp.ConnectAppResPacket" || r.tid != e.tid {
